@@ -293,13 +293,16 @@ M.contract(P_PS + ':parse_fragments_from_token', params=dict(token=TOKEN), retur
                # everywhere except inside hard quotes"), for arbitrary texts x, y.  Both are REFUTED on the
                # unchanged tree (known finding "mixed quoting"): the token is treated as a whole.
                #   x'y'  (a naked fragment without reference syntax, then a hard-quoted fragment): no symbol
-               'no-substitution-inside-a-hard-quoted-fragment': lambda token, x, y, result:
-               not (token[2] == x + "'" + y + "'" and token[1] == x + y and naked_text(x) and '@[' not in x
-                    and "'" not in y) or symbol_count(result) == 0,
+               # (check-only: refuted clauses must not be assumed by callers)
+               'no-substitution-inside-a-hard-quoted-fragment': (
+                   lambda token, x, y, result:
+                   not (token[2] == x + "'" + y + "'" and token[1] == x + y and naked_text(x) and '@[' not in x
+                        and "'" not in y) or symbol_count(result) == 0, 'check-only'),
                #   'y'@[x]@  (a hard-quoted fragment, then a naked reference): the reference is a symbol fragment
-               'substitution-outside-hard-quotes': lambda token, x, y, result:
-               not (token[2] == "'" + y + "'" + render_ref(x) and token[1] == y + render_ref(x)
-                    and valid_name(x) and "'" not in y) or symbol_count(result) >= 1,
+               'substitution-outside-hard-quotes': (
+                   lambda token, x, y, result:
+                   not (token[2] == "'" + y + "'" + render_ref(x) and token[1] == y + render_ref(x)
+                        and valid_name(x) and "'" not in y) or symbol_count(result) >= 1, 'check-only'),
            },
            replay=lambda model, rf: _MIXED_QUOTING_REPLAY,
            raises_only=())
@@ -570,7 +573,7 @@ M.contract(P_RS + ':_sdv_from_lines', params=dict(lines=LINES),
                'splits-the-lines-each-followed-by-a-line-break': (lambda lines, trace:
                                                                   len(split_events(trace)) == 1 and
                                                                   split_events(trace)[0][1]['s'] == cat_nl(lines),
-                                                                  'internal'),
+                                                                  'check-only'),
                # ... which is what callers see as the ghost event of this call
                'split-event': (lambda lines, trace: trace.append(('split', {'s': cat_nl(lines), 'lines': lines})),
                                'effect'),
@@ -609,12 +612,12 @@ M.contract(P_RS + ':HereDocParser._parse_contents', params=dict(marker=Str, toke
                    lambda marker, token_parser, old, trace:
                    len(split_events(trace)) == 1
                    and split_events(trace)[0][1]['s'] == old[1][old[0]:_hd_pos(token_parser) - len(marker)],
-                   'internal'),
+                   'check-only'),
                # the marker line that ends the document is the FIRST line that is exactly the marker: the contents
                # are lines each followed by a line break (clause above + invariant), none of which is the marker
                'no-contents-line-is-the-marker': (
                    lambda marker, trace: none_equal(split_events(trace)[0][1]['lines'], marker)
-                   and cat_nl(split_events(trace)[0][1]['lines']) == split_events(trace)[0][1]['s'], 'internal'),
+                   and cat_nl(split_events(trace)[0][1]['lines']) == split_events(trace)[0][1]['s'], 'check-only'),
                # ... which is what callers see as the ghost event of this call
                'split-event': (lambda marker, token_parser, old, trace: trace.append(
                    ('split', {'s': old[1][old[0]:_hd_pos(token_parser) - len(marker)]})), 'effect'),
@@ -743,7 +746,7 @@ M.contract(P_RS + ':HereDocParser._parse_from_start_str',
                    len(split_events(trace)) == 1 and
                    split_events(trace)[0][1]['s'] == old[1][old[0] + len(current_line_rest(old[1], old[0])) + 1:
                                                             _hd_pos(token_parser) - len(here_doc_start[2:])],
-                   'internal'),
+                   'check-only'),
                'split-event': (lambda here_doc_start, token_parser, old, trace: trace.append(
                    ('split', {'s': old[1][old[0] + len(current_line_rest(old[1], old[0])) + 1:
                                           _hd_pos(token_parser) - len(here_doc_start[2:])]})), 'effect'),
@@ -780,7 +783,7 @@ M.contract(P_PS + ':parse_fragments_from_tokens__w_is_plain', params=dict(tokens
                'fragments-of-the-head-token': lambda old, result: fragments_of_token(old[0], result[1]),
                'consumes-exactly-one-token': (lambda tokens, trace:
                                               len(consume_events(trace)) == 1 and consume_events(trace)[0][1] is tokens,
-                                              'internal'),
+                                              'check-only'),
                'next-head-starts-after-the-token': lambda tokens, old: tokens._start_pos == old[1],
                'consume-event': (lambda tokens, old, trace: trace.append(('consume', tokens, old[0])), 'effect'),
            },
@@ -824,10 +827,10 @@ M.contract(P_PS + ':SymbolReferenceOrStringParser.parse', params=dict(self=SROSP
                                                                          old[0][0] is TokenType.PLAIN
                                                                          and old[0][1] == render_ref(result.left())
                                                                          and valid_name(result.left())),
-                                                                 'internal'),
+                                                                 'check-only'),
                'one-token-consumed': (lambda token_parser, old, trace:
                                       len(consume_events(trace)) == 1 and consume_events(trace)[0][2] is old[0],
-                                      'internal'),
+                                      'check-only'),
                'next-head-starts-after-the-token': lambda token_parser, old: _hd_pos(token_parser) == old[1],
                'consume-event': (lambda token_parser, old, trace:
                                  trace.append(('consume', token_parser._token_stream, old[0])), 'effect'),
@@ -843,7 +846,7 @@ M.contract(P_PS + ':parse_rest_of_line_as_single_string', params=dict(token_pars
                                           len(split_events(trace)) == 1 and split_events(trace)[0][1]['s'] == (
                                               current_line_rest(old[1], old[0]).strip() if strip_space
                                               else current_line_rest(old[1], old[0])),
-                                          'internal'),
+                                          'check-only'),
                'stops-at-the-line-break': lambda token_parser, old:
                _hd_pos(token_parser) == old[0] + len(current_line_rest(old[1], old[0]))
                and _hd_source(token_parser) == old[1],
@@ -886,7 +889,7 @@ M.contract(P_RS + ':HereDocParser.parse_from_token_parser', params=dict(self=HDP
                'rest-of-the-header-line-is-blank': lambda old, result:
                result is None or current_line_rest(old[2], old[1]).strip() == '',
                'contents': (lambda token_parser, old, result, trace:
-                            result is None or here_doc_body_events(old, token_parser, trace), 'internal'),
+                            result is None or here_doc_body_events(old, token_parser, trace), 'check-only'),
                'stops-at-the-end-of-the-marker-line': lambda token_parser, old, result:
                result is None or (current_line_rest(old[2], _hd_pos(token_parser) - len(old[0][1][2:]))
                                   == old[0][1][2:]),
@@ -927,7 +930,7 @@ M.contract(P_RS + ':SymbolNameOrStringRichStringParser.parse_from_token_parser',
                           rich_string_form(old[0]) != 'string' or (
                                   len(consume_events(trace)) == 1 and consume_events(trace)[0][2] is old[0]
                                   and _hd_pos(token_parser) == old[1] and not head_is_reserved(old[0])),
-                          'internal'),
+                          'check-only'),
                'text-until-end-of-line': (lambda token_parser, old, trace:
                                           rich_string_form(old[0]) != 'text-until-end-of-line' or (
                                                   len(split_events(trace)) == 1
@@ -935,14 +938,14 @@ M.contract(P_RS + ':SymbolNameOrStringRichStringParser.parse_from_token_parser',
                                                   == current_line_rest(old[2], old[1]).strip()
                                                   and _hd_pos(token_parser)
                                                   == old[1] + len(current_line_rest(old[2], old[1]))),
-                                          'internal'),
+                                          'check-only'),
                'here-document': (lambda token_parser, old, trace:
                                  rich_string_form(old[0]) != 'here-document' or (
                                          here_doc_body_events(old, token_parser, trace)
                                          and current_line_rest(old[2], old[1]).strip() == ''
                                          and current_line_rest(old[2], _hd_pos(token_parser) - len(old[0][1][2:]))
                                          == old[0][1][2:]),
-                                 'internal'),
+                                 'check-only'),
            },
            raises_only=())
 
@@ -1219,7 +1222,7 @@ def same_items(xs, ys):
 M.contract(P_GP + ':ElementsUntilEndOfLineParser2.parse', params=dict(self=EUEOLP, token_parser=TP),
            setup=_setup_consumed,
            old=lambda token_parser: _tp_state(token_parser),
-           modifies=_TS_FRAME,
+           modifies={**_TS_FRAME, 'ghost:consumed': MListOf(Str)},
            raises={SingleInstructionInvalidArgumentException: {}},
            returns=MListOf(Str),
            ensures={
